@@ -914,6 +914,8 @@ func ruleC19(w *World, r *Report) {
 	sort.Slice(fns, func(i, j int) bool { return fns[i].String() < fns[j].String() })
 	k.globalWriteRule("C19.nostate", fns)
 	r.Info("C19.token-after-error-ack", "MUST-PASS", "apps", "-", "not armed: AppModule.OnRecvPacket does not run the keeper callback on a cached context, so a token-module failure between two mutations (e.g. IssueDenom ok, MintNFT fails) leaves the first mutation committed under an error acknowledgement; deciding whether such a failure is possible needs value reasoning about the token modules")
+	// a handler does not branch the store for a part of its work
+	k.ctxRule("C19.ctx")
 	r.MinInstances("C19.", 90)
 }
 
